@@ -193,6 +193,20 @@ impl<S: ShortGroupSignatureScheme> Issuer<S> {
                 "blind_claims.len + known_claims.len != schema.claims.len",
             ));
         }
+        // The holder chooses the value of every blinded claim: only claims the schema
+        // declares blindable may be blinded, none that the issuer supplies itself, and
+        // each at most once (so that together with the known claims they cover the schema).
+        let mut blinded = std::collections::BTreeSet::new();
+        for label in &request.blind_claim_labels {
+            if !self.schema.blind_claims.contains(label) {
+                return Err(Error::InvalidClaimData("claim is not blindable"));
+            }
+            if claims.contains_key(label) || !blinded.insert(label) {
+                return Err(Error::InvalidClaimData(
+                    "blinded claim is also supplied by the issuer or listed twice",
+                ));
+            }
+        }
 
         let mut messages = Vec::with_capacity(claims.len());
         let mut revocation_label = None;
